@@ -99,12 +99,6 @@ func (s *muxServer) reply(t byte, tag uint16, body []byte) []byte {
 
 // runKmux: concurrent client calls, replies in every order / random order, faults.
 func runKmux(r *rng, n int) {
-	prepFailed := 0
-	defer func() {
-		if prepFailed*10 > n+20 {
-			emit("kmux prepfailures=%d of=%d => prepfailures=few", prepFailed, n)
-		}
-	}()
 	for i := 0; i < n && !tooManyHangs(); i++ {
 		batch := 2 + r.intn(3)
 		if r.chance(1, 5) {
@@ -127,8 +121,9 @@ func runKmux(r *rng, n int) {
 				srv.c.Write(srv.reply(t, tag, body))
 			}
 		}()
-		// preparation (handshake, attach, clones) against the lock-step fake server; if it does not
-		// form, the case is skipped – but not silently if that happens often
+		// preparation (handshake, attach, clones) against the lock-step fake server: it must succeed
+		// (a failure here was how D20 first showed: an error of an earlier, dead connection delivered
+		// into a recycled response of this fresh client)
 		prepOK := true
 		c, err := p9.NewClient(a)
 		var root p9.File
@@ -147,9 +142,9 @@ func runKmux(r *rng, n int) {
 			}
 		}
 		if !prepOK {
-			prepFailed++
 			a.Close()
 			b.Close()
+			emit("kmux batch=%d fault=%s at=%d => prepfailed=1 err=%q", batch, fault, faultAt, fmt.Sprint(err))
 			continue
 		}
 		<-done
@@ -340,9 +335,10 @@ func runKmuxfid(r *rng, n int) {
 				files = append(files, f)
 			}
 		}
-		if !prepOK { // the lock-step preparation did not form: not judged
+		if !prepOK { // the lock-step preparation must succeed (see runKmux)
 			a.Close()
 			b.Close()
+			emit("kmuxfid clones=%d => formed=0 prepfailed=1", clones)
 			continue
 		}
 		<-done
